@@ -155,10 +155,12 @@ def main():
             if rc == 1:
                 caught = c
                 break
+            if rc != 0:
+                rec["inconclusive"] = True
         rec["caught_by"] = caught
         rec["wall_s"] = round(time.time() - t0, 1)
         out.write(json.dumps(rec) + "\n"); out.flush()
-        print(n, path, i + 1, op, "caught by %s" % caught if caught else "SURVIVED  [%s] => [%s]" % (old.strip(), new.strip()), flush=True)
+        print(n, path, i + 1, op, "caught by %s" % caught if caught else "%s  [%s] => [%s]" % ("INCONCLUSIVE (a check exited 2)" if rec.get("inconclusive") else "SURVIVED", old.strip(), new.strip()), flush=True)
     sh("git -C %s checkout -q -- ." % REPO)
     subprocess.run("rm -rf evidence; mv work_evidence_keep_am evidence 2>/dev/null", shell=True)
     out.close()
